@@ -406,7 +406,7 @@ def process_finding(mod, ctx, f, seed):
         return {'status': 'infra', 'msg': 'violation %s (%s) did not reproduce deterministically: %s / %s' % (f.cls, f.where, r1, r2)}
     # shrink
     budget = getattr(mod, 'SHRINK_BUDGET', 250)
-    if getattr(mod, 'SHRINKABLE', True):
+    if getattr(mod, 'SHRINKABLE', True) and not case.meta.get('probe'):
         small, used = shrink_case(case, lambda c: recheck(mod, ctx, c, f.cls)[0], budget)
     else:
         small, used = case, 0
@@ -415,6 +415,8 @@ def process_finding(mod, ctx, f, seed):
         small = case
         ok, detail, h = recheck(mod, ctx, small, f.cls)
     feats = {'class': f.cls}
+    if case.meta.get('probe'):
+        feats['probe'] = case.meta['probe']
     if hasattr(mod, 'features'):
         feats.update(mod.features(ctx, small, f.cls, detail))
     rep = {
